@@ -79,7 +79,8 @@ def span_wf_oracle(meta, impl):
     n = len(meta["inp"])
     if sp is None: return f"primary error span not on a character boundary / malformed: {e}"
     if not (sp[0] <= sp[1] <= n): return f"primary error span {sp} outside input of length {n}"
-    if meta["ekind"] in ("rich", "simple") and ":C" not in e:
+    user_errs = has_head(meta["g"], {"Custom", "TryMap", "TryMapWith", "MapErr"})   # Simple cannot mark user-supplied errors
+    if (meta["ekind"] == "rich" and ":C" not in e) or (meta["ekind"] == "simple" and not user_errs):
         f = err_found(e)
         want = meta["inp"][sp[0]] if sp[0] < n else None
         if f != want: return f"found={f} but token at span start {sp[0]} is {want}"
